@@ -159,7 +159,7 @@ def classify_model(y):
 
 
 def run_matrix(chk, accepted, dbgs=(0, 1), args_of=lambda g: [(n, v) for (n, _, v) in g.params], cmd="run",
-               max_assign=None, on_case=None):
+               max_assign=None, on_case=None, fixed_witnesses=False):
     """Gate D for C01: for every accepted program and witness assignment, the implementation (satisfy ->
     encode -> decode -> Bit Machine) succeeds exactly when the model's source semantics returns unit.
     The EXPECT witness is set (a) to the value the source semantics computes for the observed expression
@@ -167,7 +167,10 @@ def run_matrix(chk, accepted, dbgs=(0, 1), args_of=lambda g: [(n, v) for (n, _, 
     jobs = []  # (g, assignment pairs incl EXPECT, dbg)
     for g in accepted:
         rng = chk.sub_rng("wit/" + g.label)
-        assigns, exhaustive, dom = witness_assignments(rng, g.witnesses)
+        if fixed_witnesses:
+            assigns, exhaustive, dom = [list(g.fixed)], False, 1
+        else:
+            assigns, exhaustive, dom = witness_assignments(rng, g.witnesses)
         if max_assign:
             assigns = assigns[:max_assign]
         g.exhaustive = exhaustive
